@@ -436,7 +436,7 @@ def write_evidence(prop, tier, seed, results, infos, violations, undecided, know
     }
     # a partial run (engine filter, scratch copy of the repository, a subset of Kani groups) is a developer
     # run: its record goes to out/, never over the evidence file of the registered command
-    partial = set(engines) != {"V", "K", "T", "S", "F"} or os.environ.get("VERIF_REPO", "/repo") != "/repo" or bool(os.environ.get("VERIF_KANI_GROUPS"))
+    partial = set(engines) != {"V", "K", "T", "S", "F"} or os.environ.get("VERIF_REPO", "/repo") != "/repo" or bool(os.environ.get("VERIF_KANI_GROUPS")) or bool(os.environ.get("VERIF_EVAL_RUN"))
     dest = os.path.join(VERIF, "out", prop, "evidence_partial.json") if partial else os.path.join(EVIDENCE, prop + ".json")
     os.makedirs(os.path.dirname(dest), exist_ok=True)
     with open(dest, "w") as f:
